@@ -1,5 +1,119 @@
-// stub: check for C02 not built yet
+use c02::host::{check_case, Case, Host};
+use c02::model::{ExtSpec, Kv, Spec, Val};
+use c02::p::MACRO_SHAPES;
+use vcore::proptest::prelude::*;
+use vcore::Level as VLevel;
+
+const RULE: &str = "runtime cases: a key/value list (12-name alphabet with \"\", non-ASCII, prefix-related and well-known names, so duplicates are frequent; plus arbitrary short Unicode keys) realised as a tree (depth <= 4) of the real emit collection types (pair, slice/array of pairs, slice of nested collections, BTreeMap, HashMap, Option, And, Box, Arc, &, dyn ErasedProps x3 call paths, dedup(), as_map(), Empty, Span, Metric, Extent, SpanCtxt, cloned ambient frames, fixed props! sites) observed directly, as an ambient snapshot inside with_current (generic / & / Option / dyn ErasedCtxt / Box<dyn + Send + Sync> / Arc / traceparent) or as the props of an event built by emit_core::emit; non-trivial = the enumeration contains a duplicate key or the tree has nesting depth >= 2. program cases: one generated emit::props!/evt!/emit!/format! call site with 1-8 keys; non-trivial = >= 3 keys and >= 1 renamed, optional or cfg-gated key.";
+
+const KEYS: [&str; 24] = [
+    "a", "b", "ab", "A", "", "é", "abc", "éa", "a.b", "a b", "k", "z", "c", "evt_kind", "span_name", "trace_id", "span_id", "span_parent", "ts", "ts_start",
+    "metric_name", "metric_agg", "metric_value", "lvl",
+];
+const STRS: [&str; 8] = ["", "x", "text", "é", "1", "true", "0000000000000001", "span"];
+
+fn key() -> impl Strategy<Value = String> {
+    prop_oneof![
+        8 => (0usize..3).prop_map(|i| KEYS[i].to_string()),
+        6 => (0usize..6).prop_map(|i| KEYS[i].to_string()),
+        4 => (0usize..KEYS.len()).prop_map(|i| KEYS[i].to_string()),
+        1 => prop::collection::vec(any::<char>(), 0..4).prop_map(|v| v.into_iter().collect::<String>()),
+    ]
+}
+
+fn val() -> impl Strategy<Value = Val> {
+    prop_oneof![
+        4 => (-50i64..1000).prop_map(Val::I),
+        1 => any::<i64>().prop_map(Val::I),
+        1 => any::<u64>().prop_map(Val::U),
+        2 => (-1000i32..1000).prop_map(|v| Val::F(v as f64 / 8.0)),
+        1 => any::<bool>().prop_map(Val::B),
+        3 => (0usize..STRS.len()).prop_map(|i| Val::S(STRS[i].to_string())),
+        1 => Just(Val::Null),
+        1 => (1u64..).prop_map(|v| Val::Trace(v as u128)),
+        1 => (1u64..).prop_map(Val::Span),
+    ]
+}
+
+fn kv() -> impl Strategy<Value = Kv> {
+    (key(), val())
+}
+
+fn kvs(max: usize) -> impl Strategy<Value = Vec<Kv>> {
+    prop_oneof![
+        1 => prop::collection::vec(kv(), 0..=max),
+        3 => prop::collection::vec(kv(), (max / 2).max(1)..=max),
+    ]
+}
+
+fn leaf() -> impl Strategy<Value = Spec> {
+    let ext = prop_oneof![(0u32..100).prop_map(ExtSpec::Point), (0u32..100, 0u32..100).prop_map(|(a, b)| ExtSpec::Range(a, b))];
+    let id64 = || prop_oneof![2 => (1u64..).prop_map(Some), 1 => Just(None), 1 => Just(Some(0u64))];
+    prop_oneof![
+        3 => (kv(), 0u8..2).prop_map(|(kv, t)| Spec::Pair(kv, t)),
+        9 => kvs(5).prop_map(Spec::Slice),
+        2 => kvs(4).prop_map(Spec::Array),
+        2 => (kvs(4), 0u8..2).prop_map(|(k, t)| Spec::BTree(k, t)),
+        3 => kvs(4).prop_map(Spec::Hash),
+        1 => Just(Spec::Empty),
+        1 => Just(Spec::Opt(None)),
+        1 => ext.prop_map(Spec::Extent),
+        1 => (id64(), id64(), id64()).prop_map(|(t, p, s)| Spec::SpanCtxt { trace: t.map(|v| v as u128), parent: p, span: s }),
+        2 => prop::collection::vec((prop::bool::weighted(0.15), kvs(3)), 0..3).prop_map(Spec::Frame),
+        1 => (0u8..MACRO_SHAPES, prop::collection::vec(val(), 4)).prop_map(|(s, v)| Spec::Macro(s, v)),
+    ]
+}
+
+fn spec() -> impl Strategy<Value = Spec> {
+    leaf().prop_recursive(4, 24, 3, |inner| {
+        let name = || (0usize..STRS.len()).prop_map(|i| STRS[i].to_string());
+        prop_oneof![
+            6 => (inner.clone(), inner.clone()).prop_map(|(a, b)| Spec::And(Box::new(a), Box::new(b))),
+            2 => prop::collection::vec(inner.clone(), 0..=3).prop_map(Spec::Nested),
+            1 => inner.clone().prop_map(|s| Spec::Opt(Some(Box::new(s)))),
+            1 => inner.clone().prop_map(|s| Spec::Boxed(Box::new(s))),
+            1 => inner.clone().prop_map(|s| Spec::Arc(Box::new(s))),
+            1 => inner.clone().prop_map(|s| Spec::Ref(Box::new(s))),
+            3 => (0u8..3, inner.clone()).prop_map(|(h, s)| Spec::Erased(h, Box::new(s))),
+            2 => inner.clone().prop_map(|s| Spec::Dedup(Box::new(s))),
+            1 => inner.clone().prop_map(|s| Spec::AsMap(Box::new(s))),
+            1 => (name(), inner.clone()).prop_map(|(n, s)| Spec::Span { name: n, inner: Box::new(s) }),
+            1 => (name(), name(), val(), inner.clone()).prop_map(|(n, a, v, s)| Spec::Metric { name: n, agg: a, value: v, inner: Box::new(s) }),
+        ]
+    })
+}
+
+fn host() -> impl Strategy<Value = Host> {
+    prop_oneof![
+        9 => Just(Host::Direct),
+        3 => (0u8..7, prop::bool::weighted(0.2), kvs(3)).prop_map(|(how, root, under)| Host::Ambient { how, root, under }),
+        1 => kvs(2).prop_map(|under| Host::Traceparent { under }),
+        4 => (0u8..3, kvs(3)).prop_map(|(how, ambient)| Host::Event { how, ambient }),
+    ]
+}
+
+fn case() -> impl Strategy<Value = Case> {
+    (spec(), host(), any::<u32>()).prop_map(|(spec, host, nth)| Case { spec, host, nth })
+}
+
 fn main() {
-    eprintln!("C02: check not built yet");
-    std::process::exit(2);
+    vcore::run(
+        "C02",
+        VLevel::Exploration,
+        RULE,
+        &[
+            "L, the enumeration for_each yields on the object under test, is the reference: get/pull/dedup/is_unique/early-stop are judged against L of the same object (this is what the property states); enumerating one unmodified object twice yields the same sequence (else the case is a don't-care)",
+            "values are compared by Display text, is_null and the typed casts i64/u64/f64/bool/Str/TraceId/SpanId/Timestamp/Kind",
+            "for collections the harness constructed, L must equal the constructed content: in order for pairs/slices/arrays/BTreeMap/And/[P], as a multiset for HashMap, dedup() output, ambient frames and for views with fixed keys (Span/Metric/Extent/SpanCtxt: what the view itself contributes is read off the real view over an empty collection; where it sits relative to the inner properties is not asserted)",
+            "which of several values pushed for one key an ambient frame keeps is C03's subject: any of them is accepted here (each key must still appear exactly once)",
+            "what TraceparentCtxt enumerates for trace_id/span_id/span_parent depends on sampling state and is not predicted (coherence only)",
+        ],
+        |s| {
+            s.require("duplicates", 1500);
+            s.require("erased", 1000);
+            s.require("hash-backed", 1000);
+            s.require("depth>=2", 1000);
+            s.gen("runtime-trees", s.n(150_000, 3_000_000), case, check_case);
+        },
+    )
 }
